@@ -58,6 +58,19 @@ func LogVia(sev int, msg string) {
 // Tracer adds a context tracer, logs the given lines through it and submits it.
 func Tracer(sevs []int, texts []string) {
 	_, tr := log.AddTracer(context.Background())
+	handle(tr, sevs, texts)
+}
+
+// Untraced runs the same handler for a context that has no tracer:
+// log.Tracer returns nil and the nil-safe ContextTracer methods log plainly —
+// from the SAME call sites as the collected lines of Tracer.
+func Untraced(sevs []int, texts []string) {
+	handle(log.Tracer(context.Background()), sevs, texts)
+}
+
+// handle is the "request handler": it logs through the tracer of its context
+// if there is one and plainly otherwise. One call site per severity.
+func handle(tr *log.ContextTracer, sevs []int, texts []string) {
 	for i, s := range sevs {
 		switch s {
 		case 1:
